@@ -258,7 +258,12 @@ def register_dataclass_type_with_jax_tree_util(data_class):
         items = sorted(d.__dict__.items())
         return tuple(v for _, v in items), tuple(k for k, _ in items)
 
-    unflatten = lambda keys, values: data_class(**dict(zip(keys, values)))
+    def unflatten(keys, values):
+        # Only dataclass fields go back into the constructor; cached attributes that are not fields
+        # (e.g. lnZ and mu of a measure after a query) are dropped and recomputed lazily.
+        fields = data_class.__dataclass_fields__
+        return data_class(**{k: v for k, v in zip(keys, values) if k in fields})
+
     try:
         jax.tree_util.register_pytree_node(
             nodetype=data_class, flatten_func=flatten, unflatten_func=unflatten
